@@ -190,6 +190,13 @@ func scenMenu() []scenTx {
 			code := scenGrind([]byte{0x60, 0x2a, 0x60, 0x00, 0x55, 0x60, 0x00, 0x60, 0x00, 0xfd}, s.k[1].Addr, nn) // SSTORE then REVERT
 			return s.n.QuaiTxAL(s.k[1], nn, nil, big.NewInt(0), 300000, new(big.Int).Mul(scenPrice, big.NewInt(4)), code, types.AccessList{{Address: crypto.CreateAddress(s.k[1].Addr, nn, code, core.VZoneLoc)}})
 		}},
+		// a second ETX-emitting transaction from another sender: with E the block carries two
+		// transactions whose outbound lists live side by side (shared EVM of Process vs fresh EVM of the worker)
+		{"H:k1 convert Quai->Qi n+0", func(s *scen) *types.Transaction {
+			to := s.q[2].Addr
+			amt := new(big.Int).Mul(big.NewInt(1e18), big.NewInt(30))
+			return s.n.QuaiTx(s.k[1], s.nonce(s.k[1]), &to, amt, 400000, new(big.Int).Mul(scenPrice, big.NewInt(3)), nil)
+		}},
 	}
 }
 
